@@ -358,4 +358,236 @@ theorem subscribeRun_first {α} (cfg : Cfg α) (c : List α) (cs : List (List α
 
 end FromCallback
 
+
+/-! ### run(): producer thread × waiting thread -/
+namespace RunLatch
+
+/-- what every non-latch field looks like -/
+def core {α} (sh : Shared α) : Option α × Bool × Option Err × Bool := (sh.result, sh.hasResult, sh.exception, sh.done)
+
+theorem pstep_latch {α} (sh : Shared α) : core (pstep sh .setLatch) = core sh := rfl
+
+/-- shape of the producer program: once `done` has been written, only `latch.set()` follows -/
+theorem after_done_only_latch {α} (xs : List (Notif α)) :
+    ∀ (pre : List (PStep α)) (p : PStep α) (rem : List (PStep α)) (sh0 : Shared α),
+      compile xs = pre ++ p :: rem → sh0.done = false → (pre.foldl pstep sh0).done = true → p = .setLatch := by
+  induction xs with
+  | nil => intro pre p rem sh0 h; simp [compile] at h
+  | cons n r ih =>
+    intro pre p rem sh0 h h0 hd
+    cases n with
+    | next v =>
+      simp only [compile] at h
+      match pre, h with
+      | [], h => simp [h0] at hd
+      | [a], h =>
+        simp only [List.cons_append, List.nil_append, List.cons.injEq] at h
+        obtain ⟨rfl, _⟩ := h
+        simp [pstep, h0] at hd
+      | a :: b :: pre', h =>
+        simp only [List.cons_append, List.cons.injEq] at h
+        obtain ⟨rfl, rfl, h⟩ := h
+        exact ih pre' p rem (pstep (pstep sh0 (.setResult v)) .setHasResult) h h0 (by simpa using hd)
+    | error e =>
+      simp only [compile] at h
+      match pre, h with
+      | [], h => simp [h0] at hd
+      | [a], h =>
+        simp only [List.cons_append, List.nil_append, List.cons.injEq] at h
+        obtain ⟨rfl, _⟩ := h
+        simp [pstep, h0] at hd
+      | [a, b], h =>
+        simp only [List.cons_append, List.nil_append, List.cons.injEq] at h
+        exact h.2.2.1.symm
+      | a :: b :: c :: pre', h => simp at h
+    | completed =>
+      simp only [compile] at h
+      match pre, h with
+      | [], h => simp [h0] at hd
+      | [a], h =>
+        simp only [List.cons_append, List.nil_append, List.cons.injEq] at h
+        exact h.2.1.symm
+      | a :: b :: pre', h => simp at h
+
+theorem done_mono {α} (l : List (PStep α)) (sh : Shared α) (h : sh.done = true) : (l.foldl pstep sh).done = true := by
+  induction l generalizing sh with
+  | nil => exact h
+  | cons p r ih => exact ih _ (by cases p <;> simp [pstep, h])
+
+theorem outcome_core {α} (a b : Shared α) (h : core a = core b) : outcome a = outcome b := by
+  simp only [core, Prod.mk.injEq] at h
+  obtain ⟨h1, h2, h3, _⟩ := h
+  simp [outcome, h1, h2, h3]
+
+/-- the waiter's local knowledge is consistent with the shared cells -/
+def WInv {α} (s : Sys α) : Prop :=
+  match s.w with
+  | .checkDone => True
+  | .waiting => True
+  | .readExc => s.sh.done = true
+  | .readHas => s.sh.done = true ∧ s.sh.exception = none
+  | .readRes => s.sh.done = true ∧ s.sh.exception = none ∧ s.sh.hasResult = true
+  | .finished r => s.sh.done = true ∧ r = outcome s.sh
+
+def Inv {α} (xs : List (Notif α)) (s : Sys α) : Prop :=
+  (∃ pre, compile xs = pre ++ s.rem ∧ s.sh = pre.foldl pstep {}) ∧ WInv s
+
+theorem inv_wstep {α} (xs : List (Notif α)) (s : Sys α) (h : Inv xs s) : Inv xs (wstep s) := by
+  obtain ⟨hp, hw⟩ := h
+  obtain ⟨sh, rem, w⟩ := s
+  refine ⟨?_, ?_⟩
+  · cases w <;> simp only [wstep] <;> (try split) <;> (try split) <;> exact hp
+  · cases w with
+    | checkDone => simp only [wstep]; split <;> simp_all [WInv]
+    | waiting => simp only [wstep]; split <;> simp_all [WInv]
+    | readExc =>
+      simp only [WInv] at hw
+      simp only [wstep]; split <;> simp_all [WInv, outcome]
+    | readHas =>
+      simp only [WInv] at hw
+      simp only [wstep]; split <;> simp_all [WInv, outcome]
+    | readRes =>
+      simp only [WInv] at hw
+      simp only [wstep]; split <;> simp_all [WInv, outcome]
+    | finished r => exact hw
+
+theorem inv_pstep {α} (xs : List (Notif α)) (s : Sys α) (h : Inv xs s) : Inv xs (pstepSys s) := by
+  obtain ⟨⟨pre, hc, hs⟩, hw⟩ := h
+  obtain ⟨sh, rem, w⟩ := s
+  cases rem with
+  | nil => exact ⟨⟨pre, hc, hs⟩, hw⟩
+  | cons p r =>
+    simp only at hc hs
+    refine ⟨⟨pre ++ [p], by simpa [pstepSys] using hc, by simp [pstepSys, hs]⟩, ?_⟩
+    -- if the waiter already saw `done`, the producer's step can only be `latch.set()`
+    have key : sh.done = true → p = .setLatch := fun hd =>
+      after_done_only_latch xs pre p r {} hc rfl (by rw [← hs]; exact hd)
+    cases w with
+    | checkDone => trivial
+    | waiting => trivial
+    | readExc => simp only [WInv] at hw ⊢; rw [key hw]; simpa [pstepSys, pstep] using hw
+    | readHas => simp only [WInv] at hw ⊢; rw [key hw.1]; simpa [pstepSys, pstep] using hw
+    | readRes => simp only [WInv] at hw ⊢; rw [key hw.1]; simpa [pstepSys, pstep] using hw
+    | finished r' =>
+      simp only [WInv] at hw ⊢
+      rw [key hw.1]
+      refine ⟨by simpa [pstepSys, pstep] using hw.1, ?_⟩
+      rw [hw.2]; exact outcome_core _ _ rfl
+
+theorem inv_run {α} (xs : List (Notif α)) (sched : List Bool) : Inv xs (run xs sched) := by
+  have h0 : Inv xs ({ rem := compile xs } : Sys α) := ⟨⟨[], rfl, rfl⟩, trivial⟩
+  simp only [run]
+  generalize ({ rem := compile xs } : Sys α) = s at h0
+  induction sched generalizing s with
+  | nil => exact h0
+  | cons b r ih =>
+    simp only [List.foldl_cons]
+    apply ih
+    cases b
+    · exact inv_wstep xs s h0
+    · exact inv_pstep xs s h0
+
+/-- once `done` is visible, the rest of the producer program cannot change what the waiter reads -/
+theorem core_final {α} (xs : List (Notif α)) (pre rem : List (PStep α)) (hc : compile xs = pre ++ rem)
+    (hd : (pre.foldl pstep ({} : Shared α)).done = true) :
+    core ((compile xs).foldl pstep {}) = core (pre.foldl pstep {}) := by
+  rw [hc, List.foldl_append]
+  induction rem generalizing pre with
+  | nil => rfl
+  | cons p r ih =>
+    have hp : p = .setLatch := after_done_only_latch xs pre p r {} hc rfl hd
+    subst hp
+    have := ih (pre ++ [.setLatch]) (by simpa using hc) (by simpa [pstep] using hd)
+    simp only [List.foldl_append, List.foldl_cons, List.foldl_nil] at this ⊢
+    rw [this]; rfl
+
+/-- sequential reading of the producer program = the fold of `run()`'s callbacks -/
+theorem seq_rel {α} (xs : List (Notif α)) (sh : Shared α) (rs : ToFuture.RunState α)
+    (h : sh.result = rs.result ∧ sh.hasResult = rs.hasResult ∧ sh.exception = rs.exception ∧ sh.done = rs.done)
+    (hd : rs.done = false) (hst : rs.stopped = false) :
+    let sh' := (compile xs).foldl pstep sh
+    let rs' := xs.foldl ToFuture.runStep rs
+    sh'.result = rs'.result ∧ sh'.hasResult = rs'.hasResult ∧ sh'.exception = rs'.exception ∧ sh'.done = rs'.done := by
+  induction xs generalizing sh rs with
+  | nil => exact h
+  | cons n r ih =>
+    obtain ⟨h1, h2, h3, h4⟩ := h
+    cases n with
+    | next v =>
+      simp only [compile, List.foldl_cons, ToFuture.runStep, hst, Bool.false_eq_true, if_false]
+      exact ih _ _ ⟨rfl, rfl, h3, h4⟩ hd (by first | exact hst | rfl)
+    | error e =>
+      simp only [compile, List.foldl_cons, List.foldl_nil, ToFuture.runStep, hst, Bool.false_eq_true, if_false]
+      rw [ToFuture.run_frozen _ rfl]
+      exact ⟨h1, h2, rfl, rfl⟩
+    | completed =>
+      simp only [compile, List.foldl_cons, List.foldl_nil, ToFuture.runStep, hst, Bool.false_eq_true, if_false]
+      rw [ToFuture.run_frozen _ rfl]
+      exact ⟨h1, h2, h3, rfl⟩
+
+theorem outcome_eq_runBlocking {α} (xs : List (Notif α))
+    (hd : ((compile xs).foldl pstep ({} : Shared α)).done = true) :
+    outcome ((compile xs).foldl pstep ({} : Shared α)) = ToFuture.runBlocking xs := by
+  have := seq_rel xs ({} : Shared α) ({} : ToFuture.RunState α) ⟨rfl, rfl, rfl, rfl⟩ rfl rfl
+  simp only at this
+  obtain ⟨h1, h2, h3, h4⟩ := this
+  simp only [ToFuture.runBlocking, outcome, ← h1, ← h2, ← h3, ← h4, hd]
+  cases ((compile xs).foldl pstep ({} : Shared α)).exception <;>
+    cases ((compile xs).foldl pstep ({} : Shared α)).hasResult <;>
+    cases ((compile xs).foldl pstep ({} : Shared α)).result <;> simp
+
+/-- whatever the interleaving, a `run()` that returns or raises does what the sequential reading says -/
+theorem finished_correct {α} (xs : List (Notif α)) (sched : List Bool) (r : ToFuture.RunResult α)
+    (h : (run xs sched).w = .finished r) : r = ToFuture.runBlocking xs := by
+  obtain ⟨⟨pre, hc, hs⟩, hw⟩ := inv_run xs sched
+  simp only [WInv, h] at hw
+  obtain ⟨hd, rfl⟩ := hw
+  rw [hs] at hd
+  have hcore := core_final xs pre _ hc hd
+  rw [← outcome_eq_runBlocking xs (by
+    have := congrArg (fun c => c.2.2.2) hcore
+    simp only [core] at this; rw [this]; exact hd)]
+  rw [hs]; exact (outcome_core _ _ hcore).symm
+
+theorem finished_not_blocks {α} (xs : List (Notif α)) (sched : List Bool) (r : ToFuture.RunResult α)
+    (h : (run xs sched).w = .finished r) : ToFuture.runBlocking xs ≠ .blocks := by
+  obtain ⟨⟨pre, hc, hs⟩, hw⟩ := inv_run xs sched
+  simp only [WInv, h] at hw
+  obtain ⟨hd, _⟩ := hw
+  rw [hs] at hd
+  have hcore := core_final xs pre _ hc hd
+  have hfd : ((compile xs).foldl pstep ({} : Shared α)).done = true := by
+    have := congrArg (fun c => c.2.2.2) hcore
+    simp only [core] at this; rw [this]; exact hd
+  rw [← outcome_eq_runBlocking xs hfd]
+  simp only [outcome]
+  split
+  · simp
+  · split
+    · split <;> simp
+    · simp
+
+/-- the producer program of a sequence with a terminal ends with `done` and the latch set -/
+theorem final_done_latch {α} (xs : List (Notif α)) (sh : Shared α) (h : xs.any Notif.isTerminal = true) :
+    ((compile xs).foldl pstep sh).done = true ∧ ((compile xs).foldl pstep sh).latch = true := by
+  induction xs generalizing sh with
+  | nil => simp at h
+  | cons n r ih =>
+    cases n with
+    | next v =>
+      simp only [List.any_cons, Notif.isTerminal, Bool.false_or] at h
+      simpa [compile] using ih _ h
+    | error e => simp [compile, pstep]
+    | completed => simp [compile, pstep]
+
+/-- no lost wake-up: with `done` and the latch set, five steps of the waiting thread finish `run()` -/
+theorem waiter_finishes {α} (s : Sys α) (hd : s.sh.done = true) (hl : s.sh.latch = true) :
+    ∃ r, (wstep (wstep (wstep (wstep (wstep s))))).w = .finished r := by
+  obtain ⟨sh, rem, w⟩ := s
+  simp only at hd hl
+  cases w <;> cases he : sh.exception <;> cases hh : sh.hasResult <;> cases hr : sh.result <;>
+    simp [wstep, hd, hl, he, hh, hr]
+
+end RunLatch
+
 end Pure.Bridges
